@@ -64,6 +64,11 @@ try:
     OVERRIDE = json.load(open(os.path.join(HERE, 'seeded', 'retest_results.json')))
 except Exception:
     pass
+RESULTS = {}
+try:
+    RESULTS = json.load(open(os.path.join(HERE, 'seeded', 'results.json')))
+except Exception:
+    pass
 rows = []
 for sid in sorted(os.listdir(os.path.join(HERE, 'seeded'))):
     d = os.path.join(HERE, 'seeded', sid)
@@ -72,6 +77,18 @@ for sid in sorted(os.listdir(os.path.join(HERE, 'seeded'))):
     ver = open(os.path.join(d, 'verified.txt')).read() if os.path.exists(os.path.join(d, 'verified.txt')) else ''
     det = list(DET.get(sid, (None, sid.split('-')[0], '', 'quick', 'not run')))
     if sid in OVERRIDE: det[0] = OVERRIDE[sid]
+    if sid in RESULTS:
+        # the last batch run of this seed decides (lib/seed_results.py); the hand-written remark is kept
+        r = RESULTS[sid]
+        det[0], det[1], det[3] = r['detected'], r['prop'], r['tier']
+        if r['detected']:
+            det[2] = ', '.join(r['violations'][:4]) + (' ...' if len(r['violations']) > 4 else '')
+        else:
+            det[2] = ''
+            if r['rc'] == 2 and r['undecided'] and 'UNDECIDED' not in det[4]:
+                det[4] = (det[4] + '; ' if det[4] and det[4] != 'not run' else '') + 'check ends UNDECIDED (exit 2): ' + r['undecided'][0]
+            elif det[4] == 'not run':
+                det[4] = 'the check passes (exit 0): not detected'
     needs = ''
     m = re.search(r'(?is)(needs?|trigger|what it needs|manifest)[^\n]*\n(.{0,600})', notes)
     if m: needs = re.sub(r'\s+', ' ', m.group(0))[:500]
